@@ -334,6 +334,17 @@ theorem warnings_shown_on_failure (feedOk : List Plugin.Generated → Bool) (res
   unfold executeOutcome execute step
   simp [h1]
 
+/-- **Every `-g` runs exactly the `-p` plugins, each with its own parameters**: however many target
+languages there are and whatever `g.plugins` held before, each `Generate` call executes the plugins of the
+command line in order, plugin `i` with the parameters of `UsedPlugins[i]`, and never indexes out of range. -/
+theorem each_generate_runs_own_plugins {δ : Type} (descs : List δ) (n : Nat) (st : List δ)
+    (call : List (δ × Option δ)) (h : call ∈ generateCalls true descs n st) :
+    call = descs.map fun d => (d, some d) := generateCalls_own descs n st call h
+
+/-- regression witness (repaired defect): without the reset the second language's loop runs the plugin
+twice and indexes `UsedPlugins[1]` out of range — the panic `thriftgo -g go -g go:x -p P` died of -/
+example : generateCalls false [7] 2 [] = [[(7, some 7)], [(7, some 7), (7, none)]] := by decide
+
 /-- literal quirk kept by the model: a Response whose `Error` is set to the empty string is not a failure -/
 example : executeOutcome (fun _ => true) (.exited 0) (some { error := some [], contents := [], warnings := [] })
     [] [] [1] [] = .ok [] [] := by decide
